@@ -244,6 +244,17 @@ def _case(arg) -> Dict[str, Any]:
     if seed % 4 in (2, 3) and seed % 8 >= 4:
         kw["steps_out_of_file_order"] = True  # the ProfilerStep annotations are written after the operators, latest first (file order is not time order)
     per_rank = gen.gen_trace_set(seed, n_ranks=1 + (seed % 3 == 0), **kw)
+    if seed % 6 == 3 and steps >= 1:
+        # rank 0 with a wide vocabulary (200 operator names of its own, before its first step), rank 1 a file whose entries all carry a duration (narrow integer
+        # columns) and whose steps are numbered differently: rank 1's step names get trace-wide symbol ids beyond 127 when the ranks are merged
+        from hv import synth
+
+        r0 = gen.gen_trace_set(seed, n_ranks=1, **kw)[0]
+        t_first = min(e["ts"] for e in r0 if e.get("ph") == "X")
+        for k in range(200):
+            r0.append(synth.host_op(f"wide::op_{k:04d}", t_first - 3 * (k + 1), 2, tid=77))
+        r1 = gen.gen_trace_set(seed + 1, n_ranks=1, **{**kw, "step_base": 11, "noncomplete_events": False})[0]
+        per_rank = {0: r0, 1: r1}
     if seed % 5 == 0 and steps >= 2:  # an event starting exactly at the end of the last step
         for evs in per_rank.values():
             ps = [e for e in evs if str(e.get("name", "")).startswith("ProfilerStep")]
